@@ -19,7 +19,7 @@ import (
 
 type isoCtx struct {
 	p        *Prog
-	typeRen  map[string]string         // type name in A -> type name in B
+	typeRen  map[string]string               // type name in A -> type name in B
 	fnPairs  map[*ssa.Function]*ssa.Function // declared counterparts (A -> B)
 	globals  map[*ssa.Global]*ssa.Global     // discovered correspondence of package-level vars
 	globalsR map[*ssa.Global]*ssa.Global
@@ -166,15 +166,15 @@ func (ic *isoCtx) compare(fa, fb *ssa.Function) string {
 			}
 			if g, ok := ic.globals[x]; ok {
 				if g != y {
-					return fmt.Sprintf("%s: package variable %s corresponds to %s elsewhere but to %s here", ic.p.Pos(instrPos(where)), x.Name(), g.Name(), y.Name())
+					return fmt.Sprintf("%s: package variable %s corresponds to %s elsewhere but to %s here", ic.p.Pos(instrPos(where)), nm(x), nm(g), nm(y))
 				}
 				return ""
 			}
 			if g, ok := ic.globalsR[y]; ok && g != x {
-				return fmt.Sprintf("%s: package variable %s vs %s (already matched with %s)", ic.p.Pos(instrPos(where)), x.Name(), y.Name(), g.Name())
+				return fmt.Sprintf("%s: package variable %s vs %s (already matched with %s)", ic.p.Pos(instrPos(where)), nm(x), nm(y), nm(g))
 			}
 			if !ic.typeEq(x.Type(), y.Type()) {
-				return fmt.Sprintf("%s: package variables %s and %s have different types", ic.p.Pos(instrPos(where)), x.Name(), y.Name())
+				return fmt.Sprintf("%s: package variables %s and %s have different types", ic.p.Pos(instrPos(where)), nm(x), nm(y))
 			}
 			ic.globals[x], ic.globalsR[y] = y, x
 			return ""
@@ -186,13 +186,13 @@ func (ic *isoCtx) compare(fa, fb *ssa.Function) string {
 			return ic.calleeEq(x, y, where)
 		case *ssa.Builtin:
 			y, ok := b.(*ssa.Builtin)
-			if !ok || x.Name() != y.Name() {
-				return fmt.Sprintf("%s: builtin %s vs %s", ic.p.Pos(instrPos(where)), x.Name(), b)
+			if !ok || nm(x) != nm(y) {
+				return fmt.Sprintf("%s: builtin %s vs %s", ic.p.Pos(instrPos(where)), nm(x), b)
 			}
 			return ""
 		}
 		if vm[a] != b {
-			return fmt.Sprintf("%s: operand %s corresponds to %v, found %s", ic.p.Pos(instrPos(where)), a.Name(), nameOf(vm[a]), b.Name())
+			return fmt.Sprintf("%s: operand %s corresponds to %v, found %s", ic.p.Pos(instrPos(where)), nm(a), nameOf(vm[a]), nm(b))
 		}
 		return ""
 	}
@@ -218,13 +218,13 @@ func (ic *isoCtx) compare(fa, fb *ssa.Function) string {
 				}
 			case *ssa.FieldAddr:
 				y := ib.(*ssa.FieldAddr)
-				na, nb := structOf(x.X.Type()).Field(x.Field).Name(), structOf(y.X.Type()).Field(y.Field).Name()
+				na, nb := nm(structOf(x.X.Type()).Field(x.Field)), nm(structOf(y.X.Type()).Field(y.Field))
 				if na != nb {
 					return fmt.Sprintf("%s: field %s vs %s", pos, na, nb)
 				}
 			case *ssa.Field:
 				y := ib.(*ssa.Field)
-				na, nb := structOf(x.X.Type()).Field(x.Field).Name(), structOf(y.X.Type()).Field(y.Field).Name()
+				na, nb := nm(structOf(x.X.Type()).Field(x.Field)), nm(structOf(y.X.Type()).Field(y.Field))
 				if na != nb {
 					return fmt.Sprintf("%s: field %s vs %s", pos, na, nb)
 				}
@@ -250,8 +250,8 @@ func (ic *isoCtx) compare(fa, fb *ssa.Function) string {
 				if cx.IsInvoke() != cy.IsInvoke() {
 					return fmt.Sprintf("%s: interface call vs static call", pos)
 				}
-				if cx.IsInvoke() && cx.Method.Name() != cy.Method.Name() {
-					return fmt.Sprintf("%s: invokes %s vs %s", pos, cx.Method.Name(), cy.Method.Name())
+				if cx.IsInvoke() && nm(cx.Method) != nm(cy.Method) {
+					return fmt.Sprintf("%s: invokes %s vs %s", pos, nm(cx.Method), nm(cy.Method))
 				}
 				if len(cx.Args) != len(cy.Args) {
 					return fmt.Sprintf("%s: different number of arguments", pos)
@@ -284,7 +284,7 @@ func nameOf(v ssa.Value) string {
 	if v == nil {
 		return "<none>"
 	}
-	return v.Name()
+	return nm(v)
 }
 
 // calleeEq: identical functions, declared counterparts, or same-named methods/functions of corresponding types (queued for comparison).
@@ -307,7 +307,7 @@ func (ic *isoCtx) calleeEq(a, b *ssa.Function, where ssa.Instruction) string {
 	if a.Parent() != nil && b.Parent() != nil {
 		return "" // closures are compared with their parents
 	}
-	if a.Name() != b.Name() {
+	if nm(a) != nm(b) {
 		return fmt.Sprintf("%s: calls %s vs %s", ic.p.Pos(instrPos(where)), a, b)
 	}
 	// same name: receivers must correspond
